@@ -242,6 +242,11 @@ func runCheck(o checkOpts) int {
 				return
 			}
 			ob.Res = solve(ob.Name, q, o.timeout, needAgree)
+			for attempt := 0; attempt < 2 && ob.Res.Status == "error"; attempt++ {
+				// transient solver start-up failures under load: try again
+				time.Sleep(300 * time.Millisecond)
+				ob.Res = solve(ob.Name, q, o.timeout, needAgree)
+			}
 			if ob.Res.Status != "unsat" && (ob.Res.Status == "timeout" || ob.Res.Status == "unknown") && o.timeout < 60 {
 				// one retry at 4x before reporting
 				ob.Res = solve(ob.Name, q, o.timeout*3, 1)
